@@ -12,6 +12,7 @@
 (*   {"ev":"Resp","c","t","mark","bytes"}  first saltSize bytes the client  *)
 (*                                received; mark = HMAC-SHA1 mark verified *)
 (*                                by the harness's own implementation      *)
+(*   {"ev":"NoResp","c"}          fault injection: no response stream       *)
 (*   {"ev":"End","c","closed","probe","bytes","dial","authm","early"}      *)
 (*        AddClosed status, AddProbe status ("" = not called), bytes the   *)
 (*        client received in all, dial seen, AddAuthenticated argument,    *)
@@ -144,10 +145,18 @@ TrMass ==
                ELSE "", Ev.cls)
   /\ UNCHANGED <<vars, ntraces, presented>> /\ NoDrift
 
+\* driver `fault`: crypto/rand was failing while this authenticated connection's response was due, and no response
+\* stream was produced (the first write returned an error)
+TrNoResp ==
+  /\ IsEvent("NoResp")
+  /\ IF conn[Ev.c].ph = "authed" THEN EntropyFailsCore(Ev.c) /\ NoDrift
+     ELSE UNCHANGED <<cache, seen, salts, conn>> /\ NoteDrift("noresp-phase")
+  /\ UNCHANGED <<tr, ntraces, presented, mass>> /\ NoViol
+
 \* remarks of the driver (e.g. an accepted recording carries no request)
 TrNote == IsEvent("Note") /\ UNCHANGED <<vars, viols, drift, dkind, ntraces, presented, mass>>
 
-TraceNext == TrNote \/ TrNew \/ TrHello \/ TrAuth \/ TrResp \/ TrEnd \/ TrMass
+TraceNext == TrNote \/ TrNoResp \/ TrNew \/ TrHello \/ TrAuth \/ TrResp \/ TrEnd \/ TrMass
 TraceSpec == TraceInit /\ [][TraceNext]_<<vars, tvars>>
 
 Report == (l = Len(Trace) + 1) =>
